@@ -3,7 +3,11 @@
      {profile, op, rc, asked_f, asked_d, before, mid, after, changed[], fsck_req_rc, fsck_after_rc, tree_equal, consistent}
    `before` / `mid` / `after` = abstract superblock state before the request, right after tune2fs, and after the e2fsck run
    tune2fs asked for (= mid when it asked for none); `changed` = names of the raw superblock fields that differ between
-   before and after.  Lines are independent: a failing line prints BADLINE and the scan goes on.  A line on which the real
+   before and after.  obs = 1: the image after the request was also observed independently (gen/c11_rich.py): stale = object
+   classes with a stored checksum that differs from the reader's recomputation, qfile = the usage records of every quota
+   file (own parser of the quota tree), inodes = per in-use inode the facts Tune!RealUsage reads.  A line that lacks an
+   observation the specification needs prints UNOBSERVED (the check is broken, not the tool).  Lines are independent: a
+   failing line prints BADLINE and the scan goes on.  A line on which the real
    tool and the model disagree about acceptance prints DIVERGE (information; refusal carries no obligation in C11).     *)
 EXTENDS Tune, Json, IOUtils
 VARIABLE l
@@ -24,6 +28,21 @@ AfterFsckOK(m, a, op) ==
 
 PropertyClauses(r) == r.fsck_after_rc = 0 /\ r.consistent = 1 /\ r.tree_equal = 1
 
+(* When the independent observation is needed.  Checksums: the request changed what checksums are computed from (every
+   object class of Needs must have been rewritten).  Quota: quota files exist and the request wrote quota files or allocated /
+   released / moved inodes and blocks (journal, orphan file, MMP block, inode tables): the files or the usage may differ.  *)
+CsumDue(r) == LET b == St(r.before)  a == St(r.after) IN KeyChanged(r.op, b, a) \/ Needs(r.op, b, a) # {}
+QuotaDue(r) == LET b == St(r.before)  a == St(r.after)
+               IN a.quota # {} /\ r.nontrivial = 1 /\ Run(r.op, b).touched \cap {"quota", "journal", "orphan", "isize", "mmp"} # {}
+Unobserved(r) == (CsumDue(r) /\ r.obs = 0) \/ (QuotaDue(r) /\ r.obs >= 0 /\ r.qobs = 0)
+(* no checksummed object of any class is left with a stale checksum; every quota file the superblock names records exactly
+   the usage of the inode table *)
+IndependentOK(r) ==
+   LET a == St(r.after)
+   IN /\ AsSet(r.stale) = {}
+      /\ (r.qobs = 1 => /\ {q.t : q \in AsSet(r.qfile)} = a.quota
+                        /\ \A q \in AsSet(r.qfile) : QuotaFileOK(q, r.inodes))
+
 Accepted(r) ==
    LET b == St(r.before)  m == St(r.mid)  a == St(r.after)
        asked == r.asked_f = 1 \/ r.asked_d = 1
@@ -37,11 +56,13 @@ Accepted(r) ==
       /\ MustChange(r.op, b) \subseteq AsSet(r.changed)
       /\ FeatureSetOK(a)
       /\ PropertyClauses(r)                                                     \* e2fsck -fn clean, consistent, every file unchanged
+      /\ (r.obs = 1 => IndependentOK(r))                                        \* checksums and quota usage, observed independently
 
 TLine == /\ l <= Len(Tr) /\ Tr[l].e = "tune"
          /\ LET r == Tr[l]
                 ref == Refused(r.op, St(r.before))
             IN IF r.rc = 0 /\ ref THEN PrintT(<<"DIVERGE", l>>) /\ (IF PropertyClauses(r) THEN TRUE ELSE PrintT(<<"BADLINE", l>>))
+               ELSE IF r.rc = 0 /\ r.noop = 0 /\ PropertyClauses(r) /\ Unobserved(r) THEN PrintT(<<"UNOBSERVED", l>>)
                ELSE IF r.rc = 0 THEN (IF Accepted(r) THEN TRUE ELSE PrintT(<<"BADLINE", l>>))
                ELSE IF ~ref /\ ~Run(r.op, St(r.before)).mayfail THEN PrintT(<<"DIVERGE", l>>)
                ELSE TRUE
